@@ -74,6 +74,8 @@ def witness_job(_):
 def write_job(args):
     if args == "witness":
         return witness_job(None)
+    if args[0] == "rows":
+        return row_job(args[1:])
     seed, n_cases, depth, alias = args
     from amaranth.hdl import Signal
     from .. import gen_expr
@@ -118,6 +120,58 @@ def write_job(args):
     return {"seed": seed, "cases": cases, "hist": hist}
 
 
+def row_job(args):
+    """testbench writes whose targets include rows of a memory (`mem.data[i]`), also several pieces of one
+    row in one target; compared with the Lean model of _eval_assign_inner and the bit-level Spec"""
+    seed, n_cases, depth = args
+    from amaranth.hdl import Signal, Module
+    from amaranth.lib.memory import Memory
+    from amaranth.sim import Simulator
+    from .. import gen_expr
+    rng = random.Random(seed)
+    cases = []
+    hist = {}
+    for _ in range(n_cases):
+        rshape = gen_expr.rand_shape(rng, 8, allow_zero=False)
+        mdepth = rng.randint(1, 3)
+        rinit = [gen_expr.rand_value(rng, rshape) for _ in range(mdepth)]
+        shapes = [gen_expr.rand_shape(rng, 6) for _ in range(rng.randint(0, 2))]
+        offshapes = [gen_expr.unsigned(rng.randint(0, 3)) for _ in range(rng.randint(1, 2))]
+        vals = [gen_expr.rand_value(rng, s) for s in shapes + offshapes]
+        m = Module()
+        m.submodules.mem = mem = Memory(shape=rshape, depth=mdepth, init=rinit)
+        sigs = [Signal(s, name=f"t{k}", init=vals[k]) for k, s in enumerate(shapes)]
+        offs = [Signal(s, name=f"o{k}", init=vals[len(shapes) + k]) for k, s in enumerate(offshapes)]
+        dummy = Signal(); m.d.comb += dummy.eq(1)
+        rows = [mem.data[i] for i in range(mdepth)]
+        allv = sigs + offs + rows
+        g = gen_expr.TargetGen(rng, sigs + rows + rows, offs, alias=True, hist=hist)
+        t = g.target(rng.randint(1, depth))
+        if t is None:
+            continue
+        w = len(t)
+        v = rng.choice([rng.randint(-(1 << (w + 1)), (1 << (w + 1))), (1 << w) - 1, -1, 0])
+        sigidx = {id(s): i for i, s in enumerate(sigs + offs)}
+        for i in range(mdepth):
+            sigidx[("row", id(mem.data), i)] = len(sigs) + len(offs) + i
+        state = vals + rinit
+        req = f"(assign {ser_ctx([x.shape() for x in allv])} {ser_value(t, sigidx)} {v} {ser_env(state)})"
+        out = []
+        try:
+            sim = Simulator(m)
+
+            async def tb(ctx):
+                ctx.set(t, v)
+                out.extend(ctx.get(x) for x in allv)
+            sim.add_testbench(tb)
+            sim.run()
+            tbres = out
+        except Exception as e:
+            tbres = ("error", errkind(e), repr(e)[:200])
+        cases.append({"req": req, "repr": repr(t)[:300], "v": v, "state": state, "tb": tbres, "circuit": None})
+    return {"seed": seed, "cases": cases, "hist": hist}
+
+
 def parse_assign(resp):
     if not resp.startswith("assign "):
         return None
@@ -132,8 +186,9 @@ def write_campaign(chk):
     rng = chk.rng
     plan = [(120 if quick else 1600, 40, 4, False), (30 if quick else 300, 40, 3, True)]
     args = ["witness"] + [(rng.getrandbits(48), n, d, al) for jobs, n, d, al in plan for _ in range(jobs)]
+    rowargs = [("rows", rng.getrandbits(48), 40, 3) for _ in range(30 if quick else 400)]
     with ProcessPoolExecutor(max_workers=min(16, os.cpu_count() or 4)) as ex:
-        for job in ex.map(write_job, args, chunksize=2):
+        for job in ex.map(write_job, args + rowargs, chunksize=2):
             for k, v in job["hist"].items():
                 chk.hist("target_kinds", k, v)
             resps = chk.driver.ask([c["req"] for c in job["cases"]])
@@ -160,6 +215,9 @@ def write_campaign(chk):
                     continue
                 if c["tb"] != m["tb"]:
                     chk.not_shown("testbench write: impl = spec but the model of _eval_assign_inner differs", dict(base, impl=c["tb"], model=m["tb"]))
+                if c["circuit"] is None:        # memory rows cannot be assigned in a circuit
+                    chk.hist("row_targets", 1)
+                    continue
                 # circuit vs testbench (the property's own comparison)
                 if isinstance(c["circuit"], tuple):
                     chk.violation(f"circuit with {c['repr']}.eq({c['v']}) raises {c['circuit'][1]}", dict(base, kind="circuit-raises", error=c["circuit"], classes=[]))
@@ -184,4 +242,4 @@ def run(chk):
     chk.cov["rule"] += ("; writes: random assignable targets (depth<=4, signal offsets incl. beyond the target, zero-width selectors, "
                         "array elements, as_signed/as_unsigned) x random states x corner values, each run through ctx.set and through a "
                         "one-shot sync assignment; non-trivial = the write changes the state")
-    chk.assumptions += ["memory rows as targets are covered by C11's check"]
+    chk.assumptions += ["memory rows are written from testbenches only (they cannot be assigned in a circuit); port behaviour is C11's"]
